@@ -16,6 +16,7 @@ package frugal
 import (
 	"bytes"
 	"encoding/binary"
+	"fmt"
 	//"errors"
 
 	"github.com/apache/thrift/lib/go/thrift"
@@ -148,6 +149,11 @@ func (f *fBaseTransport) Close(cause error) {
 
 // Execute a frugal frame (NOTE: this frame must include the frame size).
 func (f *fBaseTransport) ExecuteFrame(frame []byte) error {
+	// Need at least 4 bytes for the frame size.
+	if len(frame) < 4 {
+		return thrift.NewTProtocolExceptionWithType(thrift.INVALID_DATA,
+			fmt.Errorf("frugal: invalid frame size %d", len(frame)))
+	}
 	return f.registry.Execute(frame[4:])
 }
 
